@@ -32,6 +32,47 @@ var trList = []trSpec{
 	{"Queue", "queue.go", "limitedBroadcast.Less", "bcastLess"},
 	{"Keyring", "keyring.go", "ValidateKey", "validateKey"},
 	{"State", "state.go", "nodeState.DeadOrLeft", "deadOrLeft"},
+	// the exclusion rules handed to kRandomNodes (function literals, see closureDecls)
+	{"Select", "state.go", "Memberlist.gossip/exclude", "gossipExclude"},
+	{"Select", "state.go", "Memberlist.probeNode/exclude", "relayExclude"},
+	{"Select", "state.go", "Memberlist.pushPull/exclude", "pushPullExclude"},
+}
+
+// closureDecls wraps the function literal passed as the last argument of the first call of `callee`
+// inside each function declaration into a declaration of its own, keyed "<file>:<function>/exclude".
+func closureDecls(decls map[string]*ast.FuncDecl, callee string) map[string]*ast.FuncDecl {
+	out := map[string]*ast.FuncDecl{}
+	for key, fd := range decls {
+		ast.Inspect(fd.Body, func(n ast.Node) bool {
+			ce, ok := n.(*ast.CallExpr)
+			if !ok || len(ce.Args) == 0 {
+				return true
+			}
+			if id, ok := ce.Fun.(*ast.Ident); !ok || id.Name != callee {
+				return true
+			}
+			if lit, ok := ce.Args[len(ce.Args)-1].(*ast.FuncLit); ok {
+				if _, dup := out[key+"/exclude"]; !dup {
+					out[key+"/exclude"] = &ast.FuncDecl{Name: ast.NewIdent("exclude"), Type: lit.Type, Body: lit.Body}
+				}
+			}
+			return true
+		})
+	}
+	return out
+}
+
+// flat renders a chain of selectors a.b.c as a_b_c ("" when the expression is anything else).
+func flat(e ast.Expr) string {
+	switch x := e.(type) {
+	case *ast.Ident:
+		return x.Name
+	case *ast.SelectorExpr:
+		if b := flat(x.X); b != "" {
+			return b + "_" + x.Sel.Name
+		}
+	}
+	return ""
 }
 
 type translator struct {
@@ -69,6 +110,9 @@ func (t *translator) sel(e *ast.SelectorExpr) string {
 			base = a
 		}
 		return t.use(base + "_" + e.Sel.Name)
+	}
+	if f := flat(e); f != "" {
+		return t.use(f)
 	}
 	return t.fail("selector %s", exprStr(t.fset, e))
 }
@@ -117,6 +161,12 @@ func (t *translator) intExpr(e ast.Expr) string {
 		if (fn == "int" || fn == "time.Duration" || fn == "int32" || fn == "int64" || fn == "uint32") && len(x.Args) == 1 {
 			return t.intExpr(x.Args[0])
 		}
+		// time.Since(x.y): the age of a stamp, one more input of the function
+		if fn == "time.Since" && len(x.Args) == 1 {
+			if f := flat(x.Args[0]); f != "" {
+				return t.use("since_" + f)
+			}
+		}
 		// a getter on the receiver or a parameter, called without arguments: one more input of the function
 		if se, ok := x.Fun.(*ast.SelectorExpr); ok && len(x.Args) == 0 {
 			if _, ok := se.X.(*ast.Ident); ok {
@@ -160,6 +210,17 @@ func (t *translator) propExpr(e ast.Expr) string {
 				if x.Op == token.NEQ {
 					return "(" + l + " ≠ 0)"
 				}
+			}
+		}
+		// equality of two name fields (strings): a flag input, non-zero when they are equal
+		if x.Op == token.EQL || x.Op == token.NEQ {
+			a, b := flat(x.X), flat(x.Y)
+			if a != "" && b != "" && strings.HasSuffix(a, "_Name") && strings.HasSuffix(b, "_Name") {
+				f := t.use("same_" + a + "_" + b)
+				if x.Op == token.EQL {
+					return "(" + f + " ≠ 0)"
+				}
+				return "(" + f + " = 0)"
 			}
 		}
 		ops := map[token.Token]string{token.LSS: "<", token.GTR: ">", token.LEQ: "≤", token.GEQ: "≥", token.EQL: "=", token.NEQ: "≠"}
